@@ -15,7 +15,7 @@ func init() { register("C01", c01) }
 var c01Chains = [][]string{
 	{"C"}, {"C", "U01"}, {"C", "U01", "U12"}, {"C", "U01", "U12", "U23"}, {"C", "U01b", "U1b2"},
 	{"C", "U01i"}, {"C", "U01~p"}, {"C", "U01~w", "U12"}, {"C", "U01x", "U12"},
-	{"C", "R01"}, {"C", "R01", "V01"}, {"C", "R01", "R12"}, {"C", "R01", "R12", "W01"}, {"C", "R01b", "V0b1"},
+	{"C", "R01"}, {"C", "R01", "V01"}, {"C", "R01", "V0>r0"}, {"C", "R01", "R12"}, {"C", "R01", "R12", "W01"}, {"C", "R01b", "V0b1"},
 	{"C", "U01", "R01"}, {"C", "U01", "R01", "V01"}, {"C", "R01~w"}, {"C", "R01~h"}, {"C", "R01~a"},
 	{"C", "D0"}, {"C", "U01", "D0"}, {"C", "R01", "D1"}, {"C", "R01", "V01", "D1"},
 }
@@ -24,7 +24,7 @@ func c01(r *hx.Run) {
 	fx.Quiet()
 	client, v := stdClient()
 	delta := v.P.MaxOperationTimeDelta
-	r.Rule = "for every legitimate chain L (23 chains of <=4 operations, anchored at times 2,4,6,8) and every multiset X of <=2 (thorough <=3 for update chains) unauthorised operations / duplicate creates placed at every anchoring slot (before, same time smaller/larger number, after each legitimate operation) and both store orders, resolve L and L+X on the real processor and require identical results (metamorphic). Non-trivial: X contains an operation that parses and reveals the commitment in force at some point of L."
+	r.Rule = "for every legitimate chain L (24 chains of <=4 operations, anchored at times 2,4,6,8) and every multiset X of <=2 (thorough <=3 for update chains) unauthorised operations / duplicate creates placed at every anchoring slot (before, same time smaller/larger number, after each legitimate operation) and both store orders, resolve L and L+X on the real processor and require identical results (metamorphic). Non-trivial: X contains an operation that parses and reveals the commitment in force at some point of L."
 	type poolKT struct {
 		kt   string
 		full bool
